@@ -4,7 +4,7 @@ PROP = {
     "level": "exploration",
     "rule": ("histories of <=50 operations {request, response, advance the virtual clock to / 1 ns before / 1 ns after an expiry instant "
              "or by a random amount with the due clean-up timers fired or held back, a pair of writers where the first is suspended between "
-             "the cache's size check and its insert, free-running bursts of concurrent requests and responses} over a pool of 1-4 keys "
+             "the cache's size check and its insert, a request held at its freshness test (the clock reading after it found its entry) while the time-to-live ends and the clean-up runs, free-running bursts of concurrent requests and responses} over a pool of 1-4 keys "
              "(2 methods x 3 URLs x path-parameter values id/org/unselected zzz x payload-path selections) against CachingPlugin "
              "(ttl 0.5-5 s, max record 4000/5500/1Mi bytes, cache 0.005/0.01/1 MB, bodies 40-6000 bytes) and ResponseBasedThrottlingPlugin "
              "(relative or absolute retry-after incl. fractional, zero, negative, unparsable, absent; relevant/irrelevant statuses); after "
